@@ -212,9 +212,12 @@ def gen_num_tok(rng):
 
 
 def gen_excl(rng):
-    k = rng.weighted([("none", 10), ("one", 4), ("human1", 1), ("tuple", 3), ("humanboth", 1)])
+    k = rng.weighted([("none", 10), ("one", 4), ("human1", 1), ("tuple", 3), ("humanboth", 1), ("foreign", 1)])
     if k == "none":
         return None
+    if k == "foreign":
+        # a plain string that is NOT a format name but contains format names: excludes nothing (seeded change C20-j)
+        return rng.choice(["my_csv_json", "xjsonx", "csvfile", ["my_csv_json"]])
     if k == "one":
         return rng.choice(EXCL_NAMES)
     if k == "human1":
